@@ -111,3 +111,30 @@ package providers
 //@ ensures[no-code-no-session] code == "" ==> ret1 == ErrMissingCode && ret0 == nil
 //@ ensures[request-error-means-no-session] called(Error#1) ==> ret1 == ret(Error#1) && ret0 == nil && ret(Error#0) != nil
 //@ ensures[error-means-no-session] ret1 != nil ==> ret0 == nil
+
+// ------------------------------------------------------------------ C14: access-token validation fails closed
+//@ func validateToken
+//@ prop C14
+//@ ensures[valid-only-for-an-error-free-200-answer] result ==> called(Do) && ret(Error#0) == nil && ret(StatusCode#1) == 200 && accessToken != ""
+//@ ensures[request-error-is-invalid] called(Error#0) && ret(Error#0) != nil ==> !result
+
+// ------------------------------------------------------------------ C04: the verifier is built from this provider's options
+//@ func newProviderDataFromConfig
+//@ shallow
+//@ prop C04
+//@ at call NewProviderVerifier assert[verifier-options-from-the-provider-options] arg(NewProviderVerifier, 1).ClientID == providerConfig.ClientID
+//@     && arg(NewProviderVerifier, 1).SkipIssuerVerification == providerConfig.OIDCConfig.InsecureSkipIssuerVerification
+//@     && arg(NewProviderVerifier, 1).AudienceClaims == providerConfig.OIDCConfig.AudienceClaims
+//@     && arg(NewProviderVerifier, 1).ExtraAudiences == providerConfig.OIDCConfig.ExtraAudiences
+//@     && arg(NewProviderVerifier, 1).IssuerURL == providerConfig.OIDCConfig.IssuerURL
+//@     && arg(NewProviderVerifier, 1).JWKsURL == providerConfig.OIDCConfig.JwksURL
+//@     && arg(NewProviderVerifier, 1).PublicKeyFiles == providerConfig.OIDCConfig.PublicKeyFiles
+//@     && arg(NewProviderVerifier, 1).SkipDiscovery == providerConfig.OIDCConfig.SkipDiscovery
+//@ ensures[verifier-error-is-an-error] called(NewProviderVerifier) && ret1(NewProviderVerifier) != nil ==> ret1 != nil && ret0 == nil
+//@ ensures[unknown-provider-type-is-an-error] ret1(providerRequiresOIDCProviderVerifier) != nil ==> ret1 != nil && ret0 == nil
+//@ ensures[oidc-providers-get-a-verifier] ret1 == nil && ret0(providerRequiresOIDCProviderVerifier) ==> called(NewProviderVerifier) && called(Verifier)
+//@ at call setAllowedGroups assert[email-policy-and-claims-from-the-options] recv(setAllowedGroups).AllowUnverifiedEmail == providerConfig.OIDCConfig.InsecureAllowUnverifiedEmail
+//@     && recv(setAllowedGroups).GroupsClaim == providerConfig.OIDCConfig.GroupsClaim
+//@     && recv(setAllowedGroups).SkipClaimsFromProfileURL == providerConfig.SkipClaimsFromProfileURL
+//@     && arg(setAllowedGroups, 1) == providerConfig.AllowedGroups
+//@ at call compileLoginParams assert[verifier-stored-in-the-provider-data] called(NewProviderVerifier) ==> recv(compileLoginParams).Verifier == ret(Verifier)
